@@ -205,7 +205,7 @@ def sig(glyphs, with_flags=True):
     return [(g[0],) + ((g[2],) if with_flags else ()) + g[3:] for g in glyphs]
 
 
-def shape_pairs(ctx, shim, r, ncases, ntexts):
+def corpus_pair_requests(r, ncases, ntexts):
     cases = r.shuffle(corpus.load())[:ncases]
     groups = []
     for fid, reg, cs in corpus.font_groups(cases):
@@ -235,9 +235,29 @@ def shape_pairs(ctx, shim, r, ncases, ntexts):
                 reqs.append(("levels", "mid-grapheme-ranges" if (ranged and not aligned) else "aligned", None, cl, None,
                              mk(cl, feats, 0), mk(cl, feats, 1), mk(cl, feats, 2)))
         groups.append((reg, reqs))
+    return groups
+
+
+def _font_name(reg):
+    reg = reg[0] if isinstance(reg, list) else reg
+    t = reg.split()
+    return t[2] if t[0] == "fontfile" else "synthetic:" + " ".join(t[:3])[:60]
+
+
+def shape_pairs(ctx, shim, r, ncases, ntexts):
+    return eval_pairs(ctx, shim, corpus_pair_requests(r, ncases, ntexts))
+
+
+def eval_pairs(ctx, shim, groups, gen=None, what_relabel=None, what_levels=None):
+    """groups: [(font registration line(s), [request tuples])].  A request tuple is
+         ("relabel", map name, f, input clusters, ranged?, request, relabelled request)   or
+         ("levels", "aligned" | "mid-grapheme-ranges", None, input clusters, None, request@0, request@1, request@2).
+    gen: name of a structured generator; its pairs are judged like the corpus pairs and accounted under
+    shape-relabel/<gen>, shape-levels/<gen>."""
+    sfx = "/" + gen if gen else ""
     lines = []
     for reg, reqs in groups:
-        g = [reg]
+        g = list(reg) if isinstance(reg, list) else [reg]
         for q in reqs:
             g += list(q[5:])
         lines.append(g)
@@ -246,7 +266,7 @@ def shape_pairs(ctx, shim, r, ncases, ntexts):
              "levels-mid-grapheme": 0, "crashed": 0}
     found = {}
     for (reg, reqs), o in zip(groups, outs):
-        k = 1
+        k = len(reg) if isinstance(reg, list) else 1
         for q in reqs:
             n = len(q) - 5
             reps = o[k:k + n]; k += n
@@ -283,28 +303,126 @@ def shape_pairs(ctx, shim, r, ncases, ntexts):
             stats["mid-grapheme-example"] = {"font": reg, "requests": list(q[5:]), "replies": [x[:400] for x in reps]}
             continue     # reported separately: a ranged feature bound inside a grapheme is outside the property's hypothesis
         ctx.violation(f"shape(): {'relabelling the input clusters changes ' + key[1] if key[0] == 'relabel' else 'the cluster level changes glyphs or positions (' + str(key[-1]) + ')' if key[0] == 'levels' else key[0]} "
-                      f"({len(lst)} request pairs, {len(set(x[1] for x in lst))} fonts; {detail})",
-                      {"stage": "search", "stream": "shape-" + key[0], "font_line": reg, "requests": list(q[5:]),
+                      f"({len(lst)} request pairs, {len(set(_font_name(x[1]) for x in lst))} fonts{'; generator ' + gen if gen else ''}; {detail}; requests {' | '.join(' '.join(x.split()[4:7] + x.split()[7:8] + x.split()[10:11]) for x in q[5:])})",
+                      {"stage": "search", "stream": "shape-" + key[0], "generator": gen or "corpus", "font_line": reg, "requests": list(q[5:]),
                        "map": q[1] if key[0] == "relabel" else None,
                        "cluster_map": [[c, q[2](c)] for c in sorted(set(q[3]))] if key[0] == "relabel" else None,
                        "kind": list(key), "observed": [x[:3000] for x in reps],
-                       "count": len(lst), "fonts": sorted(set(x[1].split()[2] for x in lst))[:40]})
-    ctx.note_search("shape-relabel", stats["relabel"], stats["relabel-nontrivial"], ranged_feature_pairs=stats["relabel-ranged"],
+                       "count": len(lst), "fonts": sorted(set(_font_name(x[1]) for x in lst))[:40]})
+    ctx.note_search("shape-relabel" + sfx, stats["relabel"], stats["relabel-nontrivial"], ranged_feature_pairs=stats["relabel-ranged"],
                     crashed_or_aborted=stats["crashed"],
                     violations_by_kind={str(k): len(v) for k, v in found.items() if k[0] != "levels"},
-                    rule="corpus (font, text, options) + shuffled / repeated / sliced / resampled / rtl-neutral texts, non-decreasing input "
-                         "clusters, random direction / level / flags, 0-2 extra ranged features with bounds at input cluster values; the "
+                    rule=(what_relabel or "corpus (font, text, options) + shuffled / repeated / sliced / resampled / rtl-neutral texts, non-decreasing input "
+                         "clusters, random direction / level / flags, 0-2 extra ranged features with bounds at input cluster values") + "; the "
                          "request is shaped again with clusters and feature ranges mapped by f (c+k, 3c+7, a*c+b, random gaps, c*c+c): "
                          "gids, flags, advances, offsets identical and clusters = f(clusters); non-trivial = more than one glyph")
-    ctx.note_search("shape-levels", stats["levels"], stats["levels-nontrivial"],
+    ctx.note_search("shape-levels" + sfx, stats["levels"], stats["levels-nontrivial"],
                     mid_grapheme_range_cases=stats["levels-mid-grapheme"],
                     mid_grapheme_differences=stats.get("mid-grapheme-differences", 0),
                     mid_grapheme_example=stats.get("mid-grapheme-example"),
                     violations_by_kind={str(k): len(v) for k, v in found.items() if k[0] == "levels"},
-                    rule="the same requests at the levels 0, 1 and 2: gids, advances and offsets identical in the same order "
+                    rule=(what_levels + "; " if what_levels else "") + "the same requests at the levels 0, 1 and 2: gids, advances and offsets identical in the same order "
                          "(clusters and flags may differ); requests whose ranged feature bounds may fall inside a grapheme are counted "
                          "and reported separately (mid_grapheme_*), they are outside the hypothesis of the statement")
     return found
+
+
+# ------------------------------------------------------------------------------------------------
+# structured Hangul (the Hangul shaper composes / decomposes / tags jamo / moves tone marks in preprocess_text)
+
+H_L = [(0x1100, 0x1112), (0x1113, 0x115E), (0x115F, 0x115F), (0xA960, 0xA97C)]     # modern, old, filler, extended-A
+H_V = [(0x1161, 0x1175), (0x1176, 0x11A7), (0x1160, 0x1160), (0xD7B0, 0xD7C6)]
+H_T = [(0x11A8, 0x11C2), (0x11C3, 0x11FF), (0xD7CB, 0xD7FB)]
+H_TONES = [0x302E, 0x302F]
+
+
+def _pick(r, classes, modern):
+    a, b = classes[0] if r.chance(modern, 8) else r.choice(classes[1:])
+    return r.range(a, b)
+
+
+def hangul_text(r):
+    """1-3 syllable chunks: <L,V>, <L,V,T> from modern (composable) or old / filler / extended jamo, precomposed LV / LVT,
+    <LV,T>, lone jamo; each followed by 0-2 tone marks; sometimes separated by a non-Hangul character"""
+    import C12
+    out = []
+    for _ in range(r.range(1, 3)):
+        k = r.below(10)
+        m = r.choice([8, 4, 4, 0])         # how modern the jamo of this chunk are
+        if k < 3: out += [_pick(r, H_L, m), _pick(r, H_V, m)]
+        elif k < 6: out += [_pick(r, H_L, m), _pick(r, H_V, m), _pick(r, H_T, m)]
+        elif k == 6: out += [C12.S_BASE + r.below(C12.L_COUNT * C12.V_COUNT) * C12.T_COUNT]
+        elif k == 7: out += [C12.S_BASE + r.below(C12.S_COUNT)]
+        elif k == 8: out += [C12.S_BASE + r.below(C12.L_COUNT * C12.V_COUNT) * C12.T_COUNT, _pick(r, H_T, m)]
+        else: out += [r.choice([_pick(r, H_L, m), _pick(r, H_V, m), _pick(r, H_T, m)])]
+        for _ in range(r.choice([0, 0, 1, 1, 1, 2])):
+            out.append(r.choice(H_TONES))
+        if r.chance(1, 5): out.append(r.choice([0x41, 0x20, 0x25CC, 0x3131]))
+    return out[:12]
+
+
+def hangul_pair_requests(r, per_font):
+    """per support variant of C12.FONTS (all syllables / none / LV only / LVT only / mixed / jamo missing / zero-width or
+    spacing tone marks / no dotted circle): structured texts, each at the three levels and under a relabelling"""
+    import C12
+    groups = []
+    for fname in sorted(C12.FONTS):
+        reg = [f"hangul font {fname} {C12.FONTS[fname]}"]
+        reqs = []
+        for _ in range(per_font):
+            cps = hangul_text(r)
+            cl = C02.input_clusters(r, len(cps), r.choice([0, 0, 1, 2, 3]))
+            d = r.choice(["l", "l", "l", "-", "r", "t"])
+            flags = r.choice([0, 0, 0x10, 3, 4])
+            mk = lambda cl_, lv_: " ".join(["shape", fname, d, "Hang", "-", str(flags), str(lv_), "-", "-", "-",
+                                           ",".join(f"{c:x}:{k}" for c, k in zip(cps, cl_))])
+            name, f = make_map(r)
+            lv = r.below(3)
+            reqs.append(("relabel", name, f, cl, False, mk(cl, lv), mk([f(x) for x in cl], lv)))
+            reqs.append(("levels", "aligned", None, cl, None, mk(cl, 0), mk(cl, 1), mk(cl, 2)))
+        groups.append((reg, reqs))
+    return groups
+
+
+def hangul_pre_lines(r, n):
+    """`hangul pre` hook requests (preprocess_text_hangul alone, crate and Lean model): the same structured text and support
+    spec at the three levels"""
+    import C12
+    lines = []
+    for _ in range(n):
+        cps = hangul_text(r)
+        cl = C02.input_clusters(r, len(cps), r.choice([0, 0, 1, 2, 3]))
+        spec = r.choice(sorted(C12.FONTS.values())) if r.chance(1, 2) else C12.rand_spec(r, cps)
+        nodc = 1 if r.chance(1, 5) else 0
+        for lv in (0, 1, 2):
+            lines.append(C12.pre_line(lv, nodc, spec, cps, cl))
+    return lines
+
+
+def hangul_pre_levels(ctx, shim, r, n):
+    """correspondence of the Hangul preprocess model at the three levels + crate-side oracle: the (code point, jamo feature)
+    sequence that comes out does not depend on the level (statement of Props/C15.lean, C15_hangul_levels_and_labels)"""
+    import C12
+    lines = hangul_pre_lines(r, n)
+    ctx.correspond("hangul-pre-levels", lines=lines, classify=C12.classify_pre)
+    outs = vlib.run_lines(shim, lines)
+    bad = []
+    for i in range(0, len(lines), 3):
+        reps = outs[i:i + 3]
+        ks = []
+        for x in reps:
+            p = C12.parse_pre(x)
+            ks.append(None if p is None else [(c, t) for c, _, t in p])
+        if not (ks[0] == ks[1] == ks[2]):
+            bad.append((len(lines[i]), lines[i:i + 3], reps))
+    bad.sort(key=lambda x: x[0])
+    for _, ls, reps in bad[:1]:
+        ctx.violation(f"preprocess_text_hangul: the cluster level changes the glyph sequence / jamo features ({len(bad)} texts): "
+                      f"{ls[0].split()[-1]} -> " + " | ".join(reps),
+                      {"stage": "search", "stream": "hangul-pre-levels", "requests": ls, "observed": reps, "count": len(bad)})
+    ctx.note_search("hangul-pre-levels", len(lines) // 3, len(lines) // 3, differences=len(bad),
+                    rule="structured Hangul texts x support specs through the preprocess hook at levels 0, 1, 2: code points and jamo "
+                         "features identical in the same order")
 
 
 def run(ctx):
@@ -319,10 +437,24 @@ def run(ctx):
     shim = vlib.build_harness()
     prim_relabel(ctx, shim, ctx.rng("prims"), ctx.budget(20000, 300000))
     shape_pairs(ctx, shim, ctx.rng("shape"), ctx.budget(400, 2128), ctx.budget(4, 16))
+    hangul_pre_levels(ctx, shim, ctx.rng("hangul-pre"), ctx.budget(3000, 60000))
+    eval_pairs(ctx, shim, hangul_pair_requests(ctx.rng("hangul"), ctx.budget(300, 6000)), gen="hangul",
+               what_relabel="structured Hangul texts (old / modern / extended jamo, composable and not, precomposed syllables, <LV,T>, "
+                            "0-2 tone marks per chunk) on 11 support variants (tone marks spacing or zero-width, with / without "
+                            "U+25CC), direction l/r/t/guessed, flags",
+               what_levels="the same structured Hangul requests")
 
 
 def replay(ctx, rp):
     shim = vlib.build_harness()
+    if rp.get("stream") == "hangul-pre-levels":
+        import C12
+        o = vlib.run_lines(shim, rp["requests"], nproc=1)
+        ks = []
+        for q, x in zip(rp["requests"], o):
+            print("request:", q); print("reply  :", x)
+            p = C12.parse_pre(x); ks.append(None if p is None else [(c, t) for c, _, t in p])
+        return 0 if ks[0] == ks[1] == ks[2] else 1
     if rp.get("stream") == "prims-relabel":
         a, b = vlib.run_lines(shim, [rp["request"], rp["relabelled_request"]], nproc=1)
         print("request    :", rp["request"]); print("reply      :", a[:3000])
@@ -330,10 +462,11 @@ def replay(ctx, rp):
         print("map:", rp["map"], "(recorded deviation:", rp["deviation"], ")")
         return 1
     if rp.get("stream", "").startswith("shape-"):
-        o = vlib.run_groups(shim, [[rp["font_line"]] + rp["requests"]], nproc=1)[0]
-        print("font:", rp["font_line"])
+        fl = rp["font_line"] if isinstance(rp["font_line"], list) else [rp["font_line"]]
+        o = vlib.run_groups(shim, [fl + rp["requests"]], nproc=1)[0]
+        print("font:", [x[:200] for x in fl])
         gls = []
-        for q, x in zip(rp["requests"], o[1:]):
+        for q, x in zip(rp["requests"], o[len(fl):]):
             print("request:", q); print("reply  :", x[:3000]); gls.append(C02.parse_shape(x))
         if any(g is None for g in gls): return 1
         if rp["stream"] == "shape-levels":
